@@ -23,7 +23,7 @@ TAGS = ["pa", "qb", "rc", "sd"]
 
 CLAUSE = {1: "result_returned", 2: "class_changed", 3: "message_lost", 4: "identity_missing",
           5: "parameters_missing", 6: "calls_after_fault", 7: "parallel_not_surfaced", 8: "calibration_not_surfaced",
-          9: "original_lost_under_cleanup_failure", 10: "context_lost"}
+          9: "original_lost_under_cleanup_failure", 10: "context_lost", 11: "capture_failure_not_surfaced"}
 
 TRUSTED = [
     "translator/c09.py (for the 41 functions on the paths from the entry points to a model call: every except handler, "
@@ -240,6 +240,19 @@ def entry_matrix(ctx, r, cyc, scale=1):
             dask_cases += cases_of_scenario(r, scenario(r, "obs_dask", 16, entry), cyc, entry=entry, outputs=outputs,
                                             every=ctx.budget(2, 1))
     cases += dask_cases
+    # debug mode: a model returns but leaves a bucket that the capture after it cannot read; sometimes a
+    # model raises at another position too (whichever comes first in execution order decides)
+    for entry in ("run_mode", "method"):
+        for _ in range(n):
+            sc = scenario(r, "exposure", 10)
+            positions = [(s, m["key"]) for s in range(sc["nsteps"]) for g in sc["groups"] for m in g["models"]]
+            for (s, k) in r.sample(positions, min(len(positions), ctx.budget(4, 10))):
+                fs = [dict(run=0, step=s, key=k, cls="ValueError", msg="corrupt", corrupt=True)]
+                if r.random() < 0.4:
+                    s2, k2 = r.choice(positions)
+                    if (s2, k2) != (s, k):
+                        fs.append(dict(run=0, step=s2, key=k2, cls=next(cyc), msg=f"boom-r0-s{s2}-k{k2}"))
+                cases.append(dict(sc, entry=entry, outputs=False, debug=True, faults=fs, scheduler="threads"))
     # the clean-up step of pyxel.run's finally block fails on top of the model's failure
     for mode, cap in (("exposure", 8), ("obs_seq", 12)):
         for entry in ("run_file", "cli"):
@@ -308,14 +321,17 @@ def emit_case(c, o) -> str:
         for g in c["groups"])
     runs = core.clist("{| r_id := %d; r_params := %s |}" % (
         r["id"], core.clist(f"({s_(k)}, {s_(v)})" for k, v in r["params"])) for r in c["runs"])
-    faults = core.clist(f"({f['run']}, {f['step']}, {f['key']}, {f['cls']}, {s_(f['msg'])})" for f in c["faults"])
+    faults = core.clist(f"({f['run']}, {f['step']}, {f['key']}, {f['cls']}, {s_(f['msg'])})" for f in c["faults"]
+                        if not f.get("corrupt"))
+    corrupt = core.clist(f"({f['run']}, {f['step']}, {f['key']})" for f in c["faults"] if f.get("corrupt"))
     trace = core.clist(f"({a}, {b}, {s_(n)})" for a, b, n in o.get("trace", []))
     pop = c.get("pop", 0) * c.get("islands", 1)
     evals = pop * c.get("evolutions", 0)
     return (f"{{| c_mode := {MODE[c['mode']]}; c_entry := {ENTRY[c.get('entry', 'run_mode')]}; "
             f"c_outputs := {core.cbool(bool(c.get('outputs')))}; "
             f"c_cleanup_fails := {core.cbool(bool(c.get('cleanup_fails')))}; "
-            f"c_chained := {core.cbool(bool(c.get('chained')))}; c_pl := {pl}; c_nsteps := {c['nsteps']}; c_runs := {runs}; "
+            f"c_chained := {core.cbool(bool(c.get('chained')))}; c_debug := {core.cbool(bool(c.get('debug')))}; "
+            f"c_corrupt := {corrupt}; c_pl := {pl}; c_nsteps := {c['nsteps']}; c_runs := {runs}; "
             f"c_faults := {faults}; c_pop := {pop}; c_evals := {evals}; o_call := {emit_outcome(o['call'])}; "
             f"o_load := {emit_outcome(o['load'])}; o_trace := {trace} |}}")
 
@@ -468,7 +484,7 @@ def correspondence(ctx: Ctx, cases, tag="c", confirm=True):
                 ctx.dist("flags", flag)
         ctx.dist("faults", len(c["faults"]))
         for f in c["faults"]:
-            ctx.dist("class", f["cls"])
+            ctx.dist("class", "(corrupts a bucket)" if f.get("corrupt") else f["cls"])
         ctx.dist("outcome", "raised" if (o["call"].get("raised") or o["load"].get("raised")) else "returned")
         if c["mode"] != "exposure":
             ctx.dist("runs", len(c["runs"]) if c["mode"] != "calib" else "calibration")
